@@ -47,6 +47,9 @@ def run(rep, tier, seed):
     gen_and_replay(rep, wd, exe, "Gen_C10.tla", "C10_d%d" % d, {"Depth": d}, {"Kinds": "WrapKinds"}, extra_inv=["SpecPure"])
     # the same histories with the odd-numbered executions going through a second Set (same templates, another escaper)
     replay_vectors(rep, exe, "replay-exec-alt", os.path.join(wd, "vec_C10_d%d.ndjson" % d), shards=4)
+    # parsing and executing one template must not change what another one renders afterwards: the multi-execution
+    # families of Gen_C08 (two entry templates sharing a library; block tables built from two sources)
+    gen_and_replay(rep, wd, exe, "Gen_C08.tla", "C10_shared_tables", {"Families": '{"shared", "alias"}'}, {}, trace_execs=0)
     access_histories(rep, wd, exe)
     if tier == "thorough":
         asis_refuted(rep, wd, "Gen_C10.tla", "C10_asis", {"Depth": 1, "FixPool": "FALSE"}, {"Kinds": "WrapKinds"}, ("StartsClean",))
